@@ -78,7 +78,7 @@ def gen_tuple(rng):
 def gen_c01(rng, depth, refs, allow_anyof=True):
     if rng.random() < 0.04:
         return rng.random() < 0.8
-    if depth > 0 and rng.random() < 0.08:
+    if depth > 0 and rng.random() < 0.14:
         return gen_tuple(rng)
     if depth <= 0:
         return gen_leafy(rng)
@@ -87,10 +87,23 @@ def gen_c01(rng, depth, refs, allow_anyof=True):
         return d
     m = rng.random()
     if m < 0.35:
-        d["properties"] = {n: gen_c01(rng, depth - 1, refs, allow_anyof) for n in rng.sample(J.NAMES, rng.choice([1, 2]))}
-        if rng.random() < 0.6:
+        names = rng.sample(J.NAMES, rng.choice([1, 2, 2, 3]))
+        if "type" in d and rng.random() < 0.75:      # mostly a type under which the object keywords matter
+            d["type"] = rng.choice(["object", "object", ["object", "null"], ["string", "object"]])
+        d["properties"] = {n: gen_c01(rng, depth - 1, refs, allow_anyof) for n in names}
+        k = rng.random()
+        if k < 0.3:
             d["required"] = rng.sample(J.NAMES + ["u"], rng.choice([1, 2]))
+        elif k < 0.65:
+            # several declared properties required at once (each of them must also be generated absent)
+            req = [n for n in names if rng.random() < 0.8] or names[:1]
+            if rng.random() < 0.2:
+                req.append("u")
+            rng.shuffle(req)
+            d["required"] = req
     elif m < 0.55:
+        if "type" in d and rng.random() < 0.75:
+            d["type"] = rng.choice(["array", "array", ["array", "null"], ["array", "number"]])
         k = rng.random()
         if k < 0.55:
             d["items"] = gen_c01(rng, depth - 1, refs, allow_anyof)
@@ -143,6 +156,31 @@ def gen_doc(rng, allow_anyof=True):
         defs[n] = s
     doc["$defs"] = defs
     return doc
+
+
+def vary(rng, doc):
+    """a document near [doc]: some leaf-like sub-schemas replaced by fresh ones, some keywords dropped"""
+    d = copy.deepcopy(doc)
+
+    def go(s, depth):
+        if not isinstance(s, dict):
+            return s
+        for k in list(s.keys()):
+            v = s[k]
+            if k in ("properties",) and isinstance(v, dict):
+                for n in list(v.keys()):
+                    v[n] = gen_leafy(rng) if rng.random() < 0.3 else go(v[n], depth + 1)
+            elif k in ("items", "contains") and isinstance(v, dict):
+                s[k] = gen_leafy(rng) if rng.random() < 0.3 else go(v, depth + 1)
+            elif k in ("prefixItems", "allOf", "anyOf") and isinstance(v, list):
+                s[k] = [gen_leafy(rng) if (rng.random() < 0.25 and k == "prefixItems") else go(x, depth + 1) for x in v]
+            elif k == "$defs" and isinstance(v, dict):
+                for n in list(v.keys()):
+                    v[n] = go(v[n], depth + 1)
+            elif k in ("minimum", "maximum", "exclusiveMinimum", "exclusiveMaximum", "minItems", "minLength", "maxLength", "multipleOf") and rng.random() < 0.15:
+                del s[k]
+        return s
+    return go(d, 0)
 
 
 def conjuncts(nf):
@@ -422,6 +460,7 @@ def run(pid, tier):
     J.install_ordered_sets()
     try:
         lines, meta = [], []
+        suspects = []
         for d in docs:
             if isinstance(d, bool) or not J.integral(d):
                 continue
@@ -441,12 +480,25 @@ def run(pid, tier):
             ck.cov["traces_validated_against_impl"] += 1
             if impl != m:
                 ck.cov["disagreements_checked"] += 1
+                suspects.append(d)
                 if ck.cov["disagreements_checked"] <= 3:
                     ck.violation("correspondence-J", "model (coq/JsonGen.v%s) and json_schema/parse.py disagree" % ("" if normalized else " + Normalize.v"),
                                  {"stream": "J", "schema": d, "already_normalized": normalized, "impl": impl[:600], "model": m[:600],
                                   "theorem": "correspondence stream J"}, found_input=False)
     finally:
         J.uninstall_ordered_sets()
+    # --- the model and the code differ on some documents: look near them for an input on which the code is wrong
+    if suspects:
+        srng = random.Random(ck.seed + 4711)
+        tried = 0
+        for base in suspects[:4]:
+            for _ in range(60):
+                v = vary(srng, base)
+                tried += 1
+                if not (isinstance(v, dict) and J.metaschema_ok(v) and in_scope(pid, v)):
+                    continue
+                docs.append(v)
+        hist["variants_of_disagreeing_documents"] = tried
     # --- oracle on the implementation alone (real sets, this process's hash seed)
     for d in docs:
         txt = json.dumps(d)
